@@ -226,7 +226,9 @@ func GenCase(r *rand.Rand, o GenOptions) *Case {
 			}
 			haveCoro = true
 		}
-		s.tag = fmt.Sprintf("%s/v%d", f.name, v)
+		if s.tag == "" {
+			s.tag = fmt.Sprintf("%s/v%d", f.name, v)
+		}
 		scens = append(scens, s)
 		tags = append(tags, s.tag)
 	}
